@@ -34,6 +34,7 @@ EXPLANATION = (
     "fresh labels; (R4) compare_dicts returns 'Balance' only under key-set equality and all-values equality and is its only "
     "producer; (R5) element keys are injective (shared with C07-E1)."
     ' (R6) the solved flag is reset for every row before the input check (shared with C04-G6).'
+    ' (R7) every molecule of the shipped reagent templates parses.'
 )
 ASSUMPTIONS = [
     "RDKit's counts are the true composition (C07 behavioural part, not decided)",
